@@ -1,7 +1,7 @@
 (* C13 - A backslash makes the next character literal, everywhere.
    Statements only; proofs in Proofs/PegEscape.v (on the grammar regenerated from akn.peg). *)
 Require Import BB.Base.Str BB.Base.Dict BB.Model.PegSyntax BB.Model.Peg BB.Model.Types BB.Gen.Grammar.
-Require Import BB.Proofs.Totality BB.Proofs.PegEscape.
+Require Import BB.Proofs.Totality BB.Proofs.PegEscape BB.Proofs.EscapedLine.
 
 (* grammar level, for every non-empty string of scalar values without a newline, every position
    and any sufficient fuel: inline+ on the character-by-character escaped string consumes exactly
@@ -20,6 +20,20 @@ Theorem C13_escaped_inlines_literal : forall td s pre post,
   s <> [] -> inline_many (pre ++ esc s ++ post) td (esc_nodes (len_N pre) s) = OkR [DText s].
 Proof. exact escaped_inlines_literal. Qed.
 Print Assumptions C13_escaped_inlines_literal.
+
+(* line level: a fully escaped line becomes one paragraph with exactly that text.  For every non-empty
+   string of scalar values without a line break, at any position of any input: hier_block_element on the
+   escaped string up to the line end succeeds (every keyword block fails on the leading backslash, rule
+   line takes it) and to_dict turns the tree into a p whose only child is the text node holding the string *)
+Theorem C13_escaped_line_is_paragraph : forall s pre rest f f',
+  Forall okc s -> s <> [] ->
+  let e := esc s in
+  let inp := pre ++ e ++ NL :: rest in
+  exists rest' off' tree,
+    run akn_peg (26 + f) (Ref (of_string "hier_block_element")) (e ++ NL :: rest) (len_N pre) = Ok rest' off' tree
+    /\ to_dict inp (2 + f') tree = OkR (DNode (Types.S_ "content") (Types.S_ "p") None None None None None None (Some [DText s])).
+Proof. exact escaped_line_is_paragraph. Qed.
+Print Assumptions C13_escaped_line_is_paragraph.
 
 (* non-vacuity: a string made of markers and keywords *)
 Example C13_example :
